@@ -695,13 +695,30 @@ func (w *c36World) certNote(reason string, a netip.AddrPort) string {
 	}
 	for _, s := range []string{"reply", "update", "static", "calc", "punch-notification"} {
 		if w.why[a][s] {
-			return " (address from a report or configuration entry filed under one overlay address)"
+			return c36SigReported
 		}
 	}
 	if w.why[a]["hs-answer"] {
-		return " (source address of the answer to a handshake the node initiated)"
+		return c36SigAnswer
 	}
 	return ""
+}
+
+// The two defects found on the unchanged tree by the two-address configurations (proposed_fixes/C36-allow-ranges-second-overlay-address.md):
+// one signature per defect, the observation (CopyAddrs / punch / handshake / data) goes into the detail.
+const (
+	c36SigReported = "C36: an underlay address from a lighthouse report, punch notification, static or calculated entry (checked only against the overlay address it was filed under) is used although remote_allow_ranges denies it for another overlay address of the peer's certificate"
+	c36SigAnswer   = "C36: the answer to a handshake the node initiated is accepted from an underlay address that remote_allow_ranges denies for another overlay address of the responder's certificate"
+)
+
+// violP reports a refused address for a peer: the defect-level signature when certNote names one, else the observation-level one.
+func (w *c36World) violP(observed, reason string, a netip.AddrPort, extra m) {
+	if sig := w.certNote(reason, a); sig != "" {
+		extra["observed"] = observed + " " + c36ReasonText[reason]
+		w.st.viol(sig, w.detail(extra))
+		return
+	}
+	w.st.viol("C36: "+observed+" "+c36ReasonText[reason], w.detail(extra))
 }
 
 func (w *c36World) peerOf(a netip.AddrPort) (string, []netip.Addr) {
@@ -809,8 +826,8 @@ func (w *c36World) judgeOut(pkts []vpkt) {
 			reason = "blocked"
 		}
 		if reason != "" {
-			w.st.viol(fmt.Sprintf("C36: %s datagram sent to an underlay address %s%s", class, c36ReasonText[reason], w.certNote(reason, p.To)),
-				w.detail(m{"to": p.To.String(), "kind": kind, "peer": who, "address_supplied_by": w.sources(p.To)}))
+			w.violP(class+" datagram sent to an underlay address", reason, p.To,
+				m{"to": p.To.String(), "kind": kind, "peer": who, "address_supplied_by": w.sources(p.To)})
 			continue
 		}
 		for s := range w.why[p.To] {
@@ -906,8 +923,8 @@ func (w *c36World) judgeState() {
 				reason = "blocked"
 			}
 			if reason != "" {
-				w.st.viol("C36: RemoteList.CopyAddrs offers an underlay address "+c36ReasonText[reason]+w.certNote(reason, a),
-					w.detail(m{"list_of": fmt.Sprint(vpn), "address": a.String(), "address_supplied_by": w.sources(a)}))
+				w.violP("RemoteList.CopyAddrs offers an underlay address", reason, a,
+					m{"list_of": fmt.Sprint(vpn), "address": a.String(), "address_supplied_by": w.sources(a)})
 			}
 		}
 		r.RLock()
